@@ -39,6 +39,7 @@ pub fn replay(m: &mut M, path: &str) {
             m.group(v["tag"].as_str().unwrap_or(""));
             continue;
         }
+        m.group_every(400, "replay");
         let args: Vec<A> = v["a"].as_array().unwrap().iter().map(arg_of).collect();
         let d = v["d"].as_i64().unwrap();
         m.call(v["fam"].as_str().unwrap(), op, v["sp"].as_str().unwrap(), if d >= 0 { Some(d as usize) } else { None }, &args);
